@@ -21,6 +21,7 @@ package hessian
 import (
 	"bytes"
 	"io"
+	"math"
 	"reflect"
 	"unsafe"
 )
@@ -123,8 +124,11 @@ func (e *Encoder) WriteData(data interface{}) (int, error) {
 		value := data.(int32)
 		return e.writeInt(value)
 	case reflect.Int: // as int
-		value := int32(data.(int))
-		return e.writeInt(value)
+		i := data.(int)
+		if i < math.MinInt32 || i > math.MaxInt32 {
+			return 0, newCodecError("WriteData", "int value %d does not fit the 32-bit hessian int", i)
+		}
+		return e.writeInt(int32(i))
 	case reflect.Uint8: // as int
 		value := int32(data.(uint8))
 		return e.writeInt(value)
